@@ -1,21 +1,33 @@
 #!/usr/bin/env python3
 import json, sys
 pid = sys.argv[1]
+name = sys.argv[2] if len(sys.argv) > 2 else pid
+avoid = ""
+if name != pid:
+    import glob, re
+    taken = []
+    for d in glob.glob(f'/verif/seeded/{pid}-*/patch.diff'):
+        for l in open(d):
+            m = re.match(r'^@@.*@@ (.*)$', l)
+            if m and m.group(1).strip():
+                taken.append(m.group(1).strip()[:90])
+    if taken:
+        avoid = " An earlier tester already changed the following places; choose a DIFFERENT mechanism of the property, in different functions: " + "; ".join(sorted(set(taken))) + "."
 for l in open('/verif/properties.jsonl'):
     p = json.loads(l)
     if p['id'] == pid:
         break
-print(f"""You are helping test a verification effort for the Go project enfein/mieru (a socks5/HTTP proxy with its own encrypted session protocol). You have your own scratch git worktree of the repository at /tmp/wt-{pid} (work ONLY there; never touch /repo or /verif; do not look under /verif).
+print(f"""You are helping test a verification effort for the Go project enfein/mieru (a socks5/HTTP proxy with its own encrypted session protocol). You have your own scratch git worktree of the repository at /tmp/wt-{name} (work ONLY there; never touch /repo or /verif; do not look under /verif).
 
 Property ({pid}): {p['title']}
 Statement: {p['statement']}
 Quantifier: {p['quantifier']['text']}
 
-Your task: produce ONE realistic change to the Go source of the project (in /tmp/wt-{pid}) that BREAKS this property, while (a) the project still compiles, (b) the project's existing test suite for the touched packages still passes unchanged, and (c) the breakage needs something specific to manifest - an unusual input, a boundary value, a particular multi-step sequence, a particular interleaving, or two cooperating sites that each look fine alone - NOT something ordinary use would expose at once. It should look like a plausible developer mistake or 'optimisation' (off-by-one, wrong comparison, missing check on one branch, swapped order, wrong constant at a boundary, stale cache use, etc.), a few lines at most. Do not edit or add files named zz_contracts_verif.go and do not edit existing tests.
+Your task: produce ONE realistic change to the Go source of the project (in /tmp/wt-{name}) that BREAKS this property, while (a) the project still compiles, (b) the project's existing test suite for the touched packages still passes unchanged, and (c) the breakage needs something specific to manifest - an unusual input, a boundary value, a particular multi-step sequence, a particular interleaving, or two cooperating sites that each look fine alone - NOT something ordinary use would expose at once. It should look like a plausible developer mistake or 'optimisation' (off-by-one, wrong comparison, missing check on one branch, swapped order, wrong constant at a boundary, stale cache use, etc.), a few lines at most.{avoid} Do not edit or add files named zz_contracts_verif.go and do not edit existing tests.
 
 Also produce a demonstration: a Go test file (a new _test.go file in the relevant package, any name starting with zz_seeded_) that FAILS with your change applied and PASSES on the unmodified code.
 
 Environment: no network. Every shell command must start with: export GOFLAGS=-mod=mod GOPROXY=off GOSUMDB=off GOTOOLCHAIN=local
-Build: cd /tmp/wt-{pid} && go build ./... ; test a package: go test -vet=off -count=1 ./pkg/<name>/  (the full suite takes several minutes; run at least the packages you touched and their direct users).
+Build: cd /tmp/wt-{name} && go build ./... ; test a package: go test -vet=off -count=1 ./pkg/<name>/  (the full suite takes several minutes; run at least the packages you touched and their direct users).
 
-Steps: read the relevant code (anchors: {', '.join(p['anchors']['files'][:8])}), pick the change, write the demonstration test, verify: (1) with the change: build ok, existing tests of touched packages pass, demo test fails; (2) without the change (git stash or git diff > patch; git checkout): demo test passes. Leave the worktree with the change APPLIED and the demo test present, and write /tmp/wt-{pid}/SEEDED.md containing: the property id, a description of the change, what is needed for it to manifest, the exact commands you ran and their results. Your final answer should summarise the change in 5 lines or less.""")
+Steps: read the relevant code (anchors: {', '.join(p['anchors']['files'][:8])}), pick the change, write the demonstration test, verify: (1) with the change: build ok, existing tests of touched packages pass, demo test fails; (2) without the change (git stash or git diff > patch; git checkout): demo test passes. Leave the worktree with the change APPLIED and the demo test present, and write /tmp/wt-{name}/SEEDED.md containing: the property id, a description of the change, what is needed for it to manifest, the exact commands you ran and their results. Your final answer should summarise the change in 5 lines or less.""")
